@@ -244,6 +244,7 @@ def run(db, cx):
                   why="a positron killed by the tracking cut annihilates: 2mc^2 must be booked")
 
     # -------------------------------------------- rule 3: killed-secondary booking
+    SEC_PID = "F:" + C + "Secondary::particle_id"
     SEC_E = "F:" + C + "Secondary::energy"
     sites = 0
     nbook = 0
@@ -281,6 +282,7 @@ def run(db, cx):
                       % [w.get("rhs") for w in pid_writes], short(ev["loc"]))
             else:
                 anti = False
+                whose = "nothing (no antiparticle test)"
                 for br in f.branch_blocks(lambda c, blk: is_anti(c)):
                     e = f.cond_polarity_edge(br, True)
                     tgt = f.blocks[br]["succ"][e]
@@ -296,11 +298,22 @@ def run(db, cx):
                     r = f.reach([tgt], blocked_blocks=blocked)
                     # reset block must be reachable from the branch and only via the add
                     if b not in r and b in f.reach([br]) and blocked:
-                        anti = True
+                        # ... and the particle that is asked must be the secondary's own type:
+                        # a view built from Secondary::particle_id, not the parent's track view
+                        c = f.blocks[br]["cond"]
+                        of_sec = SEC_PID in c.get("refs", []) + c.get("allrefs", [])
+                        for v in local_refs(c.get("refs", [])):
+                            for (_b2, _i2, d) in f.reaching_defs(v, (br, 10 ** 6)):
+                                if SEC_PID in d.get("refs", []):
+                                    of_sec = True
+                        whose = "the secondary's particle type" if of_sec else \
+                            "ANOTHER particle (`%s`)" % c.get("t")
+                        anti = anti or of_sec
                 cx.ob("C01.3-antiparticle", "reset@%s in %s" % (short(ev["loc"]), f.name), anti,
-                      "antiparticle edge adds 2*mass before the secondary is cleared",
-                      short(ev["loc"]),
-                      why="a killed positron secondary annihilates: 2mc^2 must be deposited")
+                      "antiparticle edge adds 2*mass before the secondary is cleared; the test asks %s"
+                      % whose, short(ev["loc"]),
+                      why="a killed positron secondary annihilates: 2mc^2 must be deposited - for the "
+                          "secondary's own type, whatever the parent is")
         nbook += len(books)
         for (b, i, ev) in books:
             def is_reset(x, _rs=[r[2]["loc"] for r in resets]):
